@@ -75,7 +75,9 @@ func findOrderedMaps(c *load.Ctx) []omType {
 			}
 		}
 	}
-	sort.Slice(out, func(i, j int) bool { return out[i].rel+out[i].named.Obj().Name() < out[j].rel+out[j].named.Obj().Name() })
+	sort.Slice(out, func(i, j int) bool {
+		return out[i].rel+out[i].named.Obj().Name() < out[j].rel+out[j].named.Obj().Name()
+	})
 	return out
 }
 
@@ -602,6 +604,7 @@ func runOMLock(c *load.Ctx, r *report.RuleResult) {
 				}
 			}
 			held := "" // "", "R", "W"
+			acquires := 0
 			order, data, _ := m.abstract(run.root)
 			changed := strings.Join(order, " ") != strings.Join(ref.keys, " ") || len(data) != len(ref.vals)
 			for k, v := range ref.vals {
@@ -617,11 +620,13 @@ func runOMLock(c *load.Ctx, r *report.RuleResult) {
 						fail("lock acquired while already held (self-deadlock)")
 					}
 					held, sawW = "W", true
+					acquires++
 				case "mx.RLock":
 					if held != "" {
 						fail("lock acquired while already held")
 					}
 					held = "R"
+					acquires++
 				case "mx.Unlock":
 					if held != "W" {
 						fail("Unlock without a held write lock")
@@ -640,6 +645,14 @@ func runOMLock(c *load.Ctx, r *report.RuleResult) {
 			}
 			if held != "" {
 				fail("m.mx still held when the method returns")
+			}
+			if acquires > 1 {
+				fail("the lock is released and taken again in the middle of the operation: the method is no longer atomic (a concurrent Delete/Filter can slip in between the read and the write)")
+			}
+			for _, e := range run.effects {
+				if strings.HasPrefix(e, "cb(") && acquires == 1 {
+					// the callback must run inside the single critical section
+				}
 			}
 			if changed && !sawW {
 				fail("the method changes data/order without the write lock")
